@@ -9,6 +9,7 @@ import (
 	"net/http"
 	"reflect"
 	"strings"
+	"sync"
 	"testing"
 	"time"
 
@@ -627,45 +628,23 @@ func TestC12(t *testing.T) {
 	tr := anthropic.NewTranslator(world.Logger(), config.AnthropicTranslatorConfig{Enabled: true, MaxMessageSize: 10 << 20})
 	ctx := context.Background()
 	n := rep.Pick(30000, 600000)
-	for i := 0; i < n; i++ {
-		doc, want := g.request()
-		body, _ := json.Marshal(doc)
-		unknown := false
-		if rng.Intn(12) == 0 {
-			doc2 := map[string]any{}
-			for k, v := range doc {
-				doc2[k] = v
+	// 8 workers share the one translator, as concurrent requests do in production (its
+	// pooled buffers must not leak between requests); each worker's case list is determined
+	// by the seed.
+	const workers = 8
+	var wg sync.WaitGroup
+	for wk := 0; wk < workers; wk++ {
+		wg.Add(1)
+		go func(wk int) {
+			defer wg.Done()
+			rng := rand.New(rand.NewSource(rep.Seed()*1000 + int64(wk)))
+			g := &gen{rng: rng}
+			for i := wk; i < n; i += workers {
+				apiCase(run, tr, ctx, g, rng, i)
 			}
-			doc2[[]string{"service_tier", "container", "x_unknown", "mcp_servers"}[rng.Intn(4)]] = "v"
-			body, _ = json.Marshal(doc2)
-			unknown = true
-		}
-		req, _ := http.NewRequest("POST", "http://x/olla/anthropic/v1/messages", bytes.NewReader(body))
-		out, err := tr.TransformRequest(ctx, req)
-		run.Eval(fmt.Sprintf("%x", hash(body)))
-		run.Count("api_cases", 1)
-		wit := map[string]any{"request": json.RawMessage(truncJSON(body))}
-		if i < 2 {
-			run.Sample(map[string]any{"request": json.RawMessage(truncJSON(body)), "meaning": want})
-		}
-		if err != nil {
-			if unknown {
-				run.Count("unknown_field_rejected", 1)
-				continue
-			}
-			run.Violation("C12/valid-request-rejected", "a valid Anthropic request was rejected: "+err.Error(), wit)
-			continue
-		}
-		ob, _ := json.Marshal(out.OpenAIRequest)
-		var o map[string]any
-		json.Unmarshal(ob, &o)
-		wit["upstream"] = json.RawMessage(truncJSON(ob))
-		got, xerr := extractOpenAI(o)
-		compare(run, want, got, xerr, wit)
-		if out.TargetPath != "/v1/chat/completions" {
-			run.Violation("C12/target-path", "translated request targets "+out.TargetPath, wit)
-		}
+		}(wk)
 	}
+	wg.Wait()
 	// invalid documents at API level
 	for i := 0; i < n/4; i++ {
 		doc, _ := g.request()
@@ -683,6 +662,46 @@ func TestC12(t *testing.T) {
 	run.Require("stack_valid_cases", int64(rep.Pick(350, 5000)))
 	run.Require("stack_invalid_cases", int64(rep.Pick(80, 1000)))
 	run.Finish(t)
+}
+
+func apiCase(run *rep.Run, tr *anthropic.Translator, ctx context.Context, g *gen, rng *rand.Rand, i int) {
+	doc, want := g.request()
+	body, _ := json.Marshal(doc)
+	unknown := false
+	if rng.Intn(12) == 0 {
+		doc2 := map[string]any{}
+		for k, v := range doc {
+			doc2[k] = v
+		}
+		doc2[[]string{"service_tier", "container", "x_unknown", "mcp_servers"}[rng.Intn(4)]] = "v"
+		body, _ = json.Marshal(doc2)
+		unknown = true
+	}
+	req, _ := http.NewRequest("POST", "http://x/olla/anthropic/v1/messages", bytes.NewReader(body))
+	out, err := tr.TransformRequest(ctx, req)
+	run.Eval(fmt.Sprintf("%x", hash(body)))
+	run.Count("api_cases", 1)
+	wit := map[string]any{"request": json.RawMessage(truncJSON(body))}
+	if i < 2 {
+		run.Sample(map[string]any{"request": json.RawMessage(truncJSON(body)), "meaning": want})
+	}
+	if err != nil {
+		if unknown {
+			run.Count("unknown_field_rejected", 1)
+			return
+		}
+		run.Violation("C12/valid-request-rejected", "a valid Anthropic request was rejected: "+err.Error(), wit)
+		return
+	}
+	ob, _ := json.Marshal(out.OpenAIRequest)
+	var o map[string]any
+	json.Unmarshal(ob, &o)
+	wit["upstream"] = json.RawMessage(truncJSON(ob))
+	got, xerr := extractOpenAI(o)
+	compare(run, want, got, xerr, wit)
+	if out.TargetPath != "/v1/chat/completions" {
+		run.Violation("C12/target-path", "translated request targets "+out.TargetPath, wit)
+	}
 }
 
 func throughStack(run *rep.Run, g *gen, rng *rand.Rand) {
